@@ -122,6 +122,7 @@ func (fv *FuncVerifier) call(st *State, instr ssa.Instruction, cc *ssa.CallCommo
 			return r, true
 		}
 		fv.enc.havocAllCalls["invoke "+name] = true
+		fv.unknownCallee(st, "invoke "+name, pos)
 		st.havocAll()
 		return fv.freshResult(st, cc.Method.Name(), sig), true
 	}
@@ -146,6 +147,7 @@ func (fv *FuncVerifier) call(st *State, instr ssa.Instruction, cc *ssa.CallCommo
 			}
 		}
 		fv.enc.havocAllCalls["dynamic call "+fv.valName(cc.Value)] = true
+		fv.unknownCallee(st, "dynamic call "+fv.valName(cc.Value), pos)
 		st.havocAll()
 		return fv.freshResult(st, "dyn", sig), true
 	}
@@ -168,6 +170,7 @@ func (fv *FuncVerifier) call(st *State, instr ssa.Instruction, cc *ssa.CallCommo
 			return r, true
 		}
 		fv.enc.havocAllCalls[name] = true
+		fv.unknownCallee(st, name, pos)
 		st.havocAll()
 		r := fv.freshResult(st, callee.Name(), sig)
 		return r, true
